@@ -166,6 +166,69 @@ mod derived {
 		fn abs(&self) -> Value { json!([digits(self.0 as u128, 8)]) }
 	}
 
+	/// encoded_as with a representation that is NOT the field's HasCompact type: a u32 written as eight bytes
+	pub struct Wide(pub u64);
+	pub struct WideRef<'a>(pub &'a u32);
+	impl<'a> From<&'a u32> for WideRef<'a> { fn from(x: &'a u32) -> Self { WideRef(x) } }
+	impl<'a> Encode for WideRef<'a> {
+		fn encode_to<W: Output + ?Sized>(&self, dest: &mut W) { (*self.0 as u64).encode_to(dest) }
+	}
+	impl<'a> parity_scale_codec::EncodeAsRef<'a, u32> for Wide { type RefType = WideRef<'a>; }
+	impl Decode for Wide {
+		fn decode<I: Input>(input: &mut I) -> Result<Self, Error> {
+			let v = u64::decode(input)?;
+			if v > u32::MAX as u64 { Err("Wide out of range".into()) } else { Ok(Wide(v)) }
+		}
+	}
+	impl DecodeWithMemTracking for Wide {}
+	impl From<Wide> for u32 { fn from(w: Wide) -> u32 { w.0 as u32 } }
+	#[derive(Encode, Decode, DecodeWithMemTracking, Debug, PartialEq, Clone, Copy)]
+	pub struct SWide { #[codec(encoded_as = "Wide")] pub a: u32, pub b: u8 }
+	impl Reg for SWide {
+		fn name() -> String { "SWide".into() }
+		fn descr() -> Value {
+			// the eight-byte representation accepts only values that fit u32: modelled as u32 followed by four zero bytes
+			tuple_descr(vec![u32::descr(), json!({"k":"enum","sz":0,"vs":[{"i":0,"ts":[]}]}), json!({"k":"enum","sz":0,"vs":[{"i":0,"ts":[]}]}),
+				json!({"k":"enum","sz":0,"vs":[{"i":0,"ts":[]}]}), json!({"k":"enum","sz":0,"vs":[{"i":0,"ts":[]}]}), u8::descr()], size_of::<Self>())
+		}
+		fn gen(g: &mut G) -> Self { SWide { a: u32::gen(g), b: u8::gen(g) } }
+		fn abs(&self) -> Value {
+			let z = json!({"i":1,"fs":[]});
+			json!([self.a.abs(), z.clone(), z.clone(), z.clone(), z, self.b.abs()])
+		}
+	}
+	#[derive(Encode, Decode, DecodeWithMemTracking, Debug, PartialEq, Clone, Copy)]
+	pub enum EWide { A(#[codec(encoded_as = "Wide")] u32, bool), B { #[codec(encoded_as = "Wide")] x: u32 } }
+	impl Reg for EWide {
+		fn name() -> String { "EWide".into() }
+		fn descr() -> Value {
+			let zero = json!({"k":"enum","sz":0,"vs":[{"i":0,"ts":[]}]});
+			json!({"k":"enum","sz":size_of::<Self>(),"vs":[
+				{"i":0,"ts":[u32::descr(), zero.clone(), zero.clone(), zero.clone(), zero.clone(), bool::descr()]},
+				{"i":1,"ts":[u32::descr(), zero.clone(), zero.clone(), zero.clone(), zero]}]})
+		}
+		fn gen(g: &mut G) -> Self { if g.chance(1, 2) { EWide::A(u32::gen(g), bool::gen(g)) } else { EWide::B { x: u32::gen(g) } } }
+		fn abs(&self) -> Value {
+			let z = json!({"i":1,"fs":[]});
+			match self {
+				EWide::A(a, b) => json!({"i":1,"fs":[a.abs(), z.clone(), z.clone(), z.clone(), z, b.abs()]}),
+				EWide::B { x } => json!({"i":2,"fs":[x.abs(), z.clone(), z.clone(), z.clone(), z]}),
+			}
+		}
+	}
+
+	/// transparent struct whose only field is skipped: decoding consumes nothing, in place too
+	#[derive(Encode, Decode, DecodeWithMemTracking, Debug, PartialEq, Clone, Copy)]
+	#[repr(transparent)]
+	pub struct STranspSk { #[codec(skip)] pub hits: u32 }
+	impl Reg for STranspSk {
+		const ZLEN: bool = true;
+		fn name() -> String { "STranspSk".into() }
+		fn descr() -> Value { tuple_descr(vec![], size_of::<Self>()) }
+		fn gen(g: &mut G) -> Self { STranspSk { hits: u32::gen(g) } }
+		fn abs(&self) -> Value { json!([]) }
+	}
+
 	/// zero-sized field with a non-empty encoding inside a transparent struct
 	#[derive(Encode, Decode, DecodeWithMemTracking, Debug, PartialEq, Clone, Copy)]
 	pub enum EV1 { V1 }
